@@ -59,6 +59,7 @@ struct Obj {            // an awaited future and its producer
   std::uint64_t set_invoke = 0;
   int global_shared = -1;
   std::uint32_t cell = 0;  // written before the object is fulfilled, read by the coroutine after it resumed
+  bool by_coroutine = false;  // produced by another coroutine (completion goes through final_suspend / symmetric transfer), not by Promise::Set
 };
 
 struct Op {
@@ -105,6 +106,7 @@ class Case final : public sim::CaseBase {
       o.at = kTimes[g.Draw(5)];
       o.id = 900U + static_cast<std::uint32_t>(s);
       o.global_shared = s;
+      o.by_coroutine = g.Draw(3) == 2;
       objs.push_back(o);
     }
     const int fault = static_cast<int>(g.Draw(4));
@@ -131,6 +133,7 @@ class Case final : public sim::CaseBase {
           o.outcome = g.Draw(4) == 3 ? 1 + static_cast<int>(g.Draw(2)) : 0;
           o.at = kTimes[g.Draw(5)];
           o.id = 100U * static_cast<std::uint32_t>(k + 1) + 10U * static_cast<std::uint32_t>(i) + static_cast<std::uint32_t>(op.objs.size());
+          o.by_coroutine = g.Draw(3) == 2;
           objs.push_back(o);
           return static_cast<int>(objs.size()) - 1;
         };
@@ -192,7 +195,7 @@ class Case final : public sim::CaseBase {
           for (int oi : op.objs) {
             const Obj& o = objs[static_cast<std::size_t>(oi)];
             j.Obj().KV("kind", op.kind == kAwaitTask ? (op.task_is_coroutine ? "lazy coroutine" : "MakeTask") : (o.shared ? (o.global_shared >= 0 ? "global shared" : "shared") : "unique"))
-              .KV("outcome", outs[o.outcome]).KV("completes_at_ns", o.at).End();
+              .KV("outcome", outs[o.outcome]).KV("completes_at_ns", o.at).KV("produced_by", o.by_coroutine ? "a coroutine (co_return/throw)" : "Promise::Set").End();
           }
           j.EndArr();
           j.KV("form", op.iterator ? "iterator" : "variadic").KV("failure_caught", op.guarded);
@@ -266,6 +269,28 @@ class Case final : public sim::CaseBase {
     }
   }
 
+  // an awaited object produced by a coroutine: its completion reaches the awaiters through final_suspend (Next / symmetric
+  // transfer), not through Promise::Set (Here)
+  yaclib::IExecutor* producer_exec = nullptr;
+  template <typename R>
+  static R Producer(Case* c, std::size_t i) {
+    Obj& o = c->objs[i];
+    if (o.at != 0) {
+      co_await yaclib::On(*c->producer_exec);
+      sim::SleepNs(o.at);
+    }
+    sim::RaceWrite(&o.cell, sizeof o.cell);
+    o.cell = o.id;
+    o.set_invoke = sim::Seq();
+    if (o.outcome == 2) {
+      throw sim::TaggedEx{o.id};
+    }
+    if (o.outcome == 1) {
+      co_return E{o.id};
+    }
+    co_return T{o.id};
+  }
+
   // results of the coroutines
   std::vector<UF> res_future;
   std::vector<SF> res_shared;
@@ -275,6 +300,8 @@ class Case final : public sim::CaseBase {
   void Run() final {
     yaclib::FairThreadPool pool_a{pool_workers};
     yaclib::FairThreadPool pool_b{1};
+    yaclib::FairThreadPool pool_p{2};  // producers' own pool, not proxied: its jobs are not part of any oracle
+    producer_exec = &pool_p;
     sim::Proxy px[kExCount] = {{&pool_a, 1}, {&pool_b, 2}, {&yaclib::MakeInline(yaclib::StopTag{}), 3}};
     for (int i = 0; i < kExCount; ++i) {
       ex[i] = &px[i];
@@ -301,6 +328,15 @@ class Case final : public sim::CaseBase {
     for (std::size_t i = 0; i < n; ++i) {
       if (is_task[i]) {
         objs[i].set_invoke = 1;  // tasks produce their result when started by the awaiting coroutine
+        continue;
+      }
+      if (objs[i].by_coroutine) {
+        SIM_PROBE("awaited_object_produced_by_coroutine");
+        if (objs[i].shared) {
+          sf[i] = Producer<SF>(this, i);
+        } else {
+          uf[i] = Producer<UF>(this, i);
+        }
         continue;
       }
       if (objs[i].shared) {
@@ -357,6 +393,9 @@ class Case final : public sim::CaseBase {
     pool_a.Wait();
     pool_b.SoftStop();
     pool_b.Wait();
+    pool_p.SoftStop();
+    pool_p.Wait();
+    producer_exec = nullptr;
     for (int i = 0; i < kExCount; ++i) {
       px[i].CheckQuiescent("C13");
       any_drop = any_drop || px[i].dropped() != 0;
